@@ -243,6 +243,7 @@ def run_cbmc(h, witness=False, trace=False, backend=None, cap=60):
     defines = list(h.defines) + (["WITNESS"] if witness else []) + (["VERIF_TRACK"] if h.track else [])
     uset = ["harness.%d:%d" % (k, BIG_UNWIND) for k in range(48)] + ["%s.0:%d" % (f, BIG_UNWIND) for f in ("verif_fill", "verif_copy", "ref_rd")]
     uset += ["%s:%d" % (l, BIG_UNWIND) for l in h.meta.get("big_loops", [])]
+    uset += ["%s:%d" % (l, k) for l, k in sorted(h.meta.get("bumped_loops", {}).items())]
     cmd = ["cbmc"] + files + ["--function", "harness", "--unwind", str(h.unwind)] + BASE_FLAGS + ["-I", ENGINE]
     if uset: cmd += ["--unwindset", ",".join(uset)]
     cmd += ["-D" + d for d in defines]
@@ -342,6 +343,18 @@ class Runner:
         cap = h.cap or (60 if self.tier == "quick" else 600)
         h.cap = cap
         r = portfolio(h, witness=h.witness)
+        # loops with a constant trip count above the default bound (e.g. the 8-byte reverse_copy of the C++20 path): raise the bound
+        # of exactly those loops and re-run; the unwinding assertions stay on, so a loop that is really unbounded still fails
+        rounds = 0
+        while (r["verdict"] == "REFUTED" and not h.meta.get("unwind_is_property") and rounds < 3
+               and any(".unwind." in f["id"] for f in r.get("failed") or [])):
+            rounds += 1
+            bl = h.meta.setdefault("bumped_loops", {})
+            for f in r["failed"]:
+                if ".unwind." in f["id"]: bl[f["id"].replace(".unwind.", ".")] = 18 * rounds
+            r2 = portfolio(h, witness=h.witness)
+            r2["tried"] = (r.get("tried") or []) + (r2.get("tried") or [])
+            r = r2
         out = {"harness": h.name, "desc": h.desc, "bounds": h.bounds, "unwind": h.unwind, "verdict": r["verdict"], "s": r["s"],
                "backend": r.get("backend"), "rss_kb": r.get("rss_kb", 0), "checked_properties": r.get("checked_properties", 0),
                "tried": r.get("tried"), "meta": h.meta, "expect": h.expect}
